@@ -20,6 +20,7 @@ C14Run == ev.ev = "run" =>
                                                      ELSE ev.output = Reported(ev.input, ev.filter))
           \/ Rep("C14", "reported records are not exactly the matching records, once each, in input order", [want |-> Reported(ev.input, ev.filter), got |-> ev.output]))
     /\ (ev.stable \/ Rep("C14", "two runs on the same input print different output", ""))
+    /\ (ev.garbled = <<>> \/ Rep("C14", "a reported line does not carry the record's own text (something that is not in the input is printed)", ev.garbled))
 
 \* C15: the map of a record holds the record's own values; only profile / name / target may be
 \* rewritten, and only by a generalisation that still covers the original (fact established by the
